@@ -676,9 +676,20 @@ fn plan_from_json(v: &serde_json::Value, ep: u64) -> Plan {
     (reqs, plan, nconn, conn_h2)
 }
 
+/// Episodes in a row that ran into one of the driver's own timeouts.  A server that has wedged makes every
+/// episode cost tens of seconds; after eight such episodes in a row the driver stops (the trace then ends in
+/// episodes the specification does not accept, which is the verdict).
+static TIMED_OUT_IN_A_ROW: std::sync::atomic::AtomicU32 = std::sync::atomic::AtomicU32::new(0);
+
 async fn run_episode(r: &mut StdRng, ep: u64, mode: &str, given: Option<Plan>) {
     let mem_start = dropshot::verif::peek_memory(0).len();
     run_episode_inner(r, ep, mode, given).await;
+    let timed_out = dropshot::verif::peek_memory(mem_start).iter().any(|l| l.contains("_timeout\""));
+    if timed_out {
+        TIMED_OUT_IN_A_ROW.fetch_add(1, std::sync::atomic::Ordering::SeqCst);
+    } else {
+        TIMED_OUT_IN_A_ROW.store(0, std::sync::atomic::Ordering::SeqCst);
+    }
     // Quiescence: every request the server started has either produced its response or had its future
     // dropped.  (With HTTP/2 each stream's future is its own task and may still be polled once after
     // close() has returned; its last event belongs to this episode, not the next one.)
@@ -1043,6 +1054,10 @@ fn main() {
             }
         }
         for ep in 0..episodes {
+            if TIMED_OUT_IN_A_ROW.load(std::sync::atomic::Ordering::SeqCst) >= 8 {
+                emit("campaign_stopped", json!({"why": "eight episodes in a row ran into a timeout"}));
+                break;
+            }
             let mut r = rng(seed, ep * 2 + if mode == "cancel" { 0 } else { 1 });
             run_episode(&mut r, ep, &mode, None).await;
         }
